@@ -10,7 +10,7 @@ Import ListNotations.
 Require Import Model Spec Refine.
 
 (* The main theorem, statement in full.  For every grammar whose rule bodies
-   are well formed (wf: no Skip item that matches without consuming, at least
+   are well formed (wf: at least
    one alternative in a choice; nothing else for the C01 constructs), every
    text, every regex oracle, every amount of fuel n, every expression e nested
    to any depth, every register state s:
@@ -26,10 +26,10 @@ Require Import Model Spec Refine.
 Theorem C01_exec_refines_peg :
   forall (g funs : list (list nat * expr)) (ignored : option nat)
          (t : list nat) (rx : nat -> nat -> option nat),
-    (forall r ps b, nth_error g r = Some (ps, b) -> wf g funs ignored t rx ps b) ->
-    (forall fid ps b, nth_error funs fid = Some (ps, b) -> wf g funs ignored t rx ps b) ->
+    (forall r ps b, nth_error g r = Some (ps, b) -> wf ps b) ->
+    (forall fid ps b, nth_error funs fid = Some (ps, b) -> wf ps b) ->
     (forall r, ignored = Some r -> exists es, nth_error g r = Some ([], Skip es)) ->
-    forall n e sc E s, wf g funs ignored t rx sc e -> scope_of sc E -> sub E (locals s) ->
+    forall n e sc E s, wf sc e -> scope_of sc E -> sub E (locals s) ->
       match peg g funs ignored t rx n E e (pos s), exec true g funs ignored t rx n e s with
       | Fuel, OutOfFuel => True
       | Raise, _ => True
@@ -59,7 +59,7 @@ Print Assumptions C01_choice_next_alternative_from_same_position.
 Definition ex_g : list (list nat * expr) :=
   [([], Choice [Rep (Str [97] false) (BLit 2) (BLit 2); Str [97; 98] false])].
 Example C01_hypotheses_satisfiable :
-  (forall r b, nth_error ex_g r = Some ([], b) -> wf ex_g [] None [97; 98] (fun _ _ => None) [] b)
+  (forall r b, nth_error ex_g r = Some ([], b) -> wf [] b)
   /\ peg ex_g [] None [97; 98] (fun _ _ => None) 10 [] (Ref 0) 0 = Match (VStr [97; 98]) 2.
 Proof.
   split; [|vm_compute; reflexivity].
